@@ -18,7 +18,7 @@ ELS = {1: "deuterium", 2: "helium", 6: "carbon", 10: "neon"}
 _SCENES = {}
 
 
-def scene(mix, shape, D):
+def scene(mix, shape, D, step_cm=50):
     from raysect.core import Vector3D, translate, rotate_y, rotate_z
     from raysect.optical import World
     from cherab.core import Plasma, Species, Beam
@@ -27,7 +27,7 @@ def scene(mix, shape, D):
     from cherab.core.distribution import Maxwellian
     from cherab.core.math import Constant3D, ConstantVector3D
     from cherab.core.model import SingleRayAttenuator
-    key = json.dumps([mix, shape])
+    key = json.dumps([mix, shape, step_cm])
     if key in _SCENES:
         return _SCENES[key]
     calls = []
@@ -59,7 +59,7 @@ def scene(mix, shape, D):
     beam.divergence_x = math.degrees(math.atan(tx / D))
     beam.divergence_y = math.degrees(math.atan(ty / D))
     beam.length = L / D
-    beam.attenuator = SingleRayAttenuator(step=0.5, clamp_to_zero=bool(clamp), clamp_sigma=float(cs))
+    beam.attenuator = SingleRayAttenuator(step=step_cm / 100.0, clamp_to_zero=bool(clamp), clamp_sigma=float(cs))
     _SCENES[key] = (beam, calls)
     if len(_SCENES) > 40:
         _SCENES.clear()
@@ -70,14 +70,14 @@ def replay(rec, ctx):
     from scipy import constants as K
     from cherab.core.atomic import deuterium
     D = rec["D"]
-    beam, calls = scene(rec["mix"], rec["shape"], D)
+    beam, calls = scene(rec["mix"], rec["shape"], D, rec["step_cm"])
     x, y, z = rec["x"] / D, rec["y"] / D, rec["z"] / D
     viol = []
     nsp = len(rec["mix"])
     tag = f"{nsp}-species"
 
     def bad(what, detail):
-        viol.append({"sig": f"{tag}:{what}", "detail": f"{detail} | mix={rec['mix']} shape={rec['shape']} point=({x},{y},{z})"})
+        viol.append({"sig": f"{tag}:{what}", "detail": f"{detail} | step={rec['step_cm']}cm mix={rec['mix']} shape={rec['shape']} point=({x},{y},{z})"})
     try:
         got = beam.density(x, y, z)
     except Exception as ex:         # noqa: BLE001
@@ -94,8 +94,8 @@ def replay(rec, ctx):
         s_phys = rec["S"] * NU * US
         want = rate / v * math.exp(-s_phys * z / v) * math.exp(-0.5 * (x * x / sx2 + y * y / sy2)) / (2 * math.pi * math.sqrt(sx2 * sy2))
         # between attenuation nodes the code interpolates the density linearly: relative error <= (S step / v)^2 / 8
-        off_node = abs(z / 0.5 - round(z / 0.5)) > 1e-9
-        rtol = 1e-9 + (1.01 * (s_phys * 0.5 / v) ** 2 / 8 if off_node else 0.0)
+        h = rec["shape"][3] / D / (rec["nbeam"] - 1)          # node spacing of the attenuation table (spec: NBeam)
+        rtol = 1e-9 + (0.0 if rec["on_node"] else 1.01 * (s_phys * h / v) ** 2 / 8)
         if not core.close(got, want, rtol=rtol):
             # which ingredient is off: compare the on-axis flux with the unattenuated one
             bad("density-differs", f"{got!r} vs {want!r} (S = {rec['S']} units, attenuation exponent {s_phys * z / v:.6g})")
@@ -141,6 +141,7 @@ CFG = """SPECIFICATION Spec
 INVARIANT Monotone
 INVARIANT NoStoppingConservesFlux
 INVARIANT Streamline
+INVARIANT SpacingAtMostStep
 INVARIANT EmitCase
 """
 
@@ -160,15 +161,15 @@ def run(v):
             v.violation(x["sig"], x["detail"], r)
     for x in extra_checks(v):
         v.violation(x["sig"], x["detail"], None)
-    v.add_cases(len(cases) + 2, keys=[json.dumps([r["mix"], r["shape"], r["x"], r["y"], r["z"]]) for r in cases])
+    v.add_cases(len(cases) + 2, keys=[json.dumps([r["mix"], r["shape"], r["x"], r["y"], r["z"], r["step_cm"]]) for r in cases])
     v.sample(next(r for r in cases if r["class"] == "value" and len(r["mix"]) == 3 and r["x"]))
     v.assumptions += ["uniform plasma along the beam (the attenuation integral is exact); spatially varying profiles are exercised through the C01 scenes (attenuator step sensitivity) only",
-                      "mock stopping rates a_i + c_i n_eq, ions at rest; CODATA constants; attenuator step 0.5 m with lattice points on the nodes"]
+                      "mock stopping rates a_i + c_i n_eq, ions at rest; CODATA constants; attenuator steps 0.5, 0.3 and 0.07 m (the last two do not divide the beam lengths); off-node points within the linear-interpolation bound"]
     return v.finish(rule="one case = one (species mix, beam shape, lattice point) row of BeamDensity.tla evaluated on the real beam; distinct = distinct rows")
 
 
 def selftest():
-    rec = {"mix": [[1, 4, 3, 0]], "shape": [1, 0, 0, 40, False, 5], "D": 10, "x": 0, "y": 0, "z": 20, "class": "value", "S": 12, "z2n": 4, "neq": [[4, 1]],
+    rec = {"mix": [[1, 4, 3, 0]], "shape": [1, 0, 0, 40, False, 5], "D": 10, "step_cm": 50, "nbeam": 9, "on_node": True, "x": 0, "y": 0, "z": 20, "class": "value", "S": 12, "z2n": 4, "neq": [[4, 1]],
            "sx2": 100, "sy2": 100, "dir": [[0, 100], [0, 100], [20, 1]]}
     good = replay(rec, None)
     _SCENES.clear()
